@@ -33,9 +33,8 @@ TrStep(e) ==
             /\ fs' = AsFs(e.fs)
             /\ UNCHANGED <<fs0, beh, gen, opts>>
       [] e.ev = "Perturb" ->
-            /\ phase \in {"generated", "tested"}
-            /\ beh' = AsBeh(e.beh) /\ phase' = "generated"
-            /\ UNCHANGED <<fs, fs0, gen, opts, verdict>>
+            \* the specification's own actions, with the new behaviour bound to what the driver installed
+            PerturbTo(AsBeh(e.beh))
 TraceNext == l <= Len(Tr) /\ Tr[l].ev # "Init" /\ Tr[l].raised = "none" /\ TrStep(Tr[l]) /\ l' = l + 1
 
 Bad == (IF l <= Len(Tr) /\ Tr[l].ev # "Init" /\ Tr[l].raised # "none" THEN {"CompletesWithoutError_" \o Tr[l].ev} ELSE {})
